@@ -58,6 +58,10 @@ func VfH_equiv() {
 	if !found {
 		return
 	}
+	if len(parts) > 3 {
+		// an imported function exported again: only its presence and signature are compared (it has no body)
+		return
+	}
 	var args []uint64
 	names := []string{"p0", "p1", "p2", "p3", "p4", "p5"}
 	// stated bound on i32 arguments (addresses, loop counts, sizes) for the exports the driver lists
